@@ -133,6 +133,19 @@ def check_sid(ref, prefs, Sid, typ, s, rec, table):
             continue
         if not (back == x and back_s == x and list(back.fields.items()) == list(fields.items())):
             out.append(dict(signature="roundtrip/not-identity", observed=[cname, str(p1), back.uri, list(back.fields.items())], expected=x.uri))
+        else:
+            # pure function of (type, fields, c): the equal Sid that was built from a path answers every configuration -
+            # the one it came from, the others, the default - as the Sid built from the string does
+            for o in prefs:
+                for b in (back, back_s, back.copy()):
+                    try:
+                        got = [str(b.path(o)), str(b.path(config=o))] + ([str(b.path())] if o is None else [])
+                    except Exception as e:  # noqa
+                        got = ["EXC " + type(e).__name__]
+                    wanted = str(x.path(o))
+                    if set(got) != {wanted}:
+                        out.append(dict(signature="path/not-pure/sid-built-from-a-path", observed=[cname, o, got], expected=wanted))
+                        break
         root = pr.root()
         rel = str(p1)[len(root):] if str(p1).startswith(root) else "!" + str(p1)
         rels[cname or "default"] = rel
